@@ -652,6 +652,21 @@ def try_discharge(prog, site):
             m = re.search(r"\[[^;\]]+; (\d+)\]", recv_ty)
             if m and r[0] >= 0 and r[1] < int(m.group(1)):
                 return "range", f"index in {r} < array length {m.group(1)}"
+        # v[i] with i the Some payload of v.iter().position(..) (or rposition / enumerate's index found by find): an index of an element of v,
+        # provided v is not shortened in between (no &mut use of v between the search and the indexing in this body)
+        pos = [c for c in core.desc_calls(idx) if re.search(r"Iterator>?::(position|rposition)$|::iter::Iterator::(position|rposition)$", c[1]) and c[2]]
+        if len(pos) == 1 and len(pos[0]) > 3 and isinstance(pos[0][3], int):
+            src = pos[0][2][0]
+            its = [c for c in core.desc_calls(src) if re.search(r"::(iter|iter_mut)$|IntoIterator>?::into_iter$", c[1]) and c[2]]
+            same = bool(its) and all(_strip(c[2][0]) == _strip(recv) for c in its) and \
+                not [c for c in core.desc_calls(src) if re.search(r"::(skip|rev|filter|filter_map|step_by|skip_while|chain|zip|take|flat_map|flatten)$", c[1])]
+            if same:
+                pb = pos[0][3]
+                between = set(body.reachable(body.succs(pb))) & {x for x in range(len(body.blocks)) if site.block in body.reachable([x])}
+                shrink = [x for x in between if body.term(x) and body.term(x)["k"] == "call" and x != site.block and
+                          re.search(r"::(remove|swap_remove|pop|truncate|clear|drain|retain|split_off|dedup\w*)$", body.term(x).get("callee") or "")]
+                if not shrink:
+                    return "position", "the index is the position of an element found in the same vector, which is not shortened in between"
     if k == "call:vec-op":
         name = site.what.rsplit("::", 1)[1]
         recv = site.operands[0]
